@@ -148,7 +148,9 @@ def _snapshot(c, h, kind, bad):
   # -- model time through the datetime route
   when = _ref_datetime(c['ref'], tick) + datetime.timedelta(minutes=tmin)
   t_dt = float(sr.datetime_to_time(when))
-  if not abs(t_dt - time_nd) <= 8 * EPS * abs(time_nd) + 1e-300:
+  # the datetime route subtracts two stamps: its rounding error is absolute (a few ulp of a day in model
+  # units), not relative to the elapsed time; budget 1e-12 model units = 1e-10 of the minute the property speaks of
+  if not abs(t_dt - time_nd) <= 64 * EPS * abs(time_nd) + 1e-12:
     viol('datetime_to_time', f'datetime_to_time({when}) = {t_dt!r}, expected {time_nd!r}')
   # -- phases: SolarRadiation.time_to_orbital_time vs the spec's exact turns
   ot = sr.time_to_orbital_time(time_nd)
